@@ -5,7 +5,17 @@ import os
 HERE = os.path.dirname(os.path.dirname(os.path.abspath(__file__)))
 
 CLAIMED = {
-    "C05": dict(
+    "C03": dict(
+        level="exploration", design="DESIGN.md 3/C03",
+        text=("After every operation of a seeded history (45% of operations carry one non-conforming value aimed at one position of "
+              "one route: constructor keyword, dict-to-spec casting, obj.a = v, scalar helpers, element helpers by index / key / value, "
+              "nested keyword updates, update / transform, transforms returning a wrong element, preparers and item preparers returning "
+              "a wrong value) an independently written reference checker verifies every managed attribute of every live instance "
+              "against its annotation, recursively (elements, keys and values, Union / Optional arms, Literal choices, nested spec "
+              "attributes, validated predicates, key-index coherence of KeyedList / KeyedSet)."),
+        note="Trusted: the reference conformance checker in specsim/props/c03.py. Direct mutation of contained lists / dicts is not generated (out of scope by the statement).",
+        technique="deterministic simulation: seeded operation histories with ill-formed inputs, reference type-conformance invariant after every step",
+    ),    "C05": dict(
         level="exploration", design="DESIGN.md 3/C05",
         text=("Every scalar / top-level helper call of a seeded history (every documented call form: value, keywords, dict-as-"
               "keywords, value + keywords, transform + attribute transforms; flags _inplace and _if; sentinels) is compared with "
